@@ -1,9 +1,21 @@
 #!/bin/bash
-# usage: tools/mutrun.sh <patch.diff> <check-id> [check args...]   — applies a seeded change to /repo, runs the check, reverts.
+# usage: tools/mutrun.sh <patch.diff> <check-id> [check args...]
+# Runs a check against a seeded change. While other work is going on in /repo the change is applied to a scratch worktree of /repo's
+# HEAD (VERIF_REPO points the runner at it; evidence goes to a scratch directory); with MUTRUN_INPLACE=1 it is applied to /repo itself
+# and reverted straight afterwards, which is what a reviewer would do.
 set -u
-diff=$1; shift
-git -C /repo apply "$diff" || { echo "PATCH DOES NOT APPLY"; exit 3; }
-( cd /verif && ./check "$@" ); rc=$?
-git -C /repo checkout -- .
+diff=$(readlink -f "$1"); shift
+if [ "${MUTRUN_INPLACE:-0}" = 1 ]; then
+  git -C /repo apply "$diff" || { echo "PATCH DOES NOT APPLY"; exit 3; }
+  ( cd /verif && ./check "$@" ); rc=$?
+  git -C /repo checkout -- .
+else
+  wt=${MUTRUN_WT:-/var/tmp/mutrepo.$$}
+  git -C /repo worktree add --detach -f "$wt" HEAD >/dev/null 2>&1 || { echo "cannot create worktree"; exit 3; }
+  if git -C "$wt" apply "$diff"; then
+    ( cd /verif && VERIF_REPO="$wt" VERIF_EVIDENCE_DIR="${VERIF_WORK:-/var/tmp/vw}/mut-evidence" ./check "$@" ); rc=$?
+  else echo "PATCH DOES NOT APPLY"; rc=3; fi
+  git -C /repo worktree remove --force "$wt"
+fi
 echo "mutrun rc=$rc"
 exit $rc
